@@ -19,9 +19,9 @@ META = {
     'assumptions': ['line granularity in the calling thread; interrupts inside C code or between bytecodes of one '
                     'line are not enumerated', 'a worker that dies while bootstrapping has not started its task'],
     'tiers': {
-        'quick': {'shards': 16, 'budget_s': 50, 'serial_scn': 2, 'serial_stride': 2, 'fork_scn': 2, 'fork_stride': 7,
+        'quick': {'shards': 16, 'budget_s': 50, 'mp_scn': 1, 'mp_stride': 9, 'serial_scn': 2, 'serial_stride': 2, 'fork_scn': 2, 'fork_stride': 7,
                   'spawn_scn': 1, 'spawn_stride': 40, 'double_pairs': 160, 'sigint_runs': 48},
-        'thorough': {'shards': 16, 'budget_s': 420, 'serial_scn': 6, 'serial_stride': 1, 'fork_scn': 3, 'fork_stride': 1,
+        'thorough': {'shards': 16, 'budget_s': 420, 'mp_scn': 3, 'mp_stride': 1, 'serial_scn': 6, 'serial_stride': 1, 'fork_scn': 3, 'fork_stride': 1,
                      'spawn_scn': 2, 'spawn_stride': 6, 'double_pairs': 2000, 'sigint_runs': 480},
     },
 }
@@ -70,7 +70,7 @@ def make_scn(seed, idx, backend, gated=False, displays=False):
     return scn
 
 
-def run_case(scn, mode, k1=None, k2=None, sig=None, count_only=False, watchdog=None):
+def run_case(scn, mode, k1=None, k2=None, sig=None, count_only=False, watchdog=None, mp=False):
     """mode: 'line' | 'sigint'.  Returns dict with delivery info and bad[]."""
     import os
     import signal
@@ -92,11 +92,19 @@ def run_case(scn, mode, k1=None, k2=None, sig=None, count_only=False, watchdog=N
         signal.alarm(watchdog or (30 if scn['backend'] != 'serial' else 15))
         if mode == 'line':
             def on_fire(site):
+                if mp:
+                    import sys as _sys
+                    f = _sys._getframe(1)
+                    while f is not None and '/labtech/' not in f.f_code.co_filename:
+                        f = f.f_back
+                    site = dict(site, via=(f"{f.f_code.co_filename.rsplit('/labtech/', 1)[1]}:{f.f_code.co_name}" if f else None))
                 info['fired'].append(site)
                 info['t_fire'].append(time.monotonic_ns())
                 if k2 is not None and len(info['fired']) == 1:
                     state['inj'].rearm(k2)
-            state['inj'] = inject.Injector(k=(None if count_only else k1), action='interrupt', on_fire=on_fire)
+            extra = ('multiprocessing/connection.py', 'multiprocessing/managers.py', 'multiprocessing/queues.py') if mp else ()
+            state['inj'] = inject.Injector(k=(None if count_only else k1), action='interrupt', on_fire=on_fire,
+                                           extra_files=extra, only_extra=mp)
             state['inj'].start()
         else:
             signal.signal(signal.SIGINT, signal.default_int_handler)
@@ -231,8 +239,11 @@ def judge(scn, out, info, mode, double):
     from vlab.model import cacheable
     from vlab.storages import make_storage
     bad = info['bad']
-    site = inject.site_key(info['fired'][0])
-    site_last = inject.site_key(info['fired'][-1])
+    def _sk(f):
+        # an interrupt inside multiprocessing I/O is keyed by the labtech function that was doing the I/O
+        return ('mpio-via:' + str(f.get('via'))) if str(f.get('file', '')).startswith('py:') else inject.site_key(f)
+    site = _sk(info['fired'][0])
+    site_last = _sk(info['fired'][-1])
     t1 = info['t_fire'][0]
     tlast = info['t_fire'][-1]
     spec = scn['spec']
@@ -329,6 +340,15 @@ def jobs_for(rep, cfg):
             stride = cfg[key + '_stride']
             for k in range(1 + ((i * 3) % stride), int(n * 1.15) + 2, stride):
                 jobs.append(('line', scn, k, None, None))
+    for i in range(cfg.get('mp_scn', 1)):
+        for displays in (False, True):
+            scn = make_scn(rep.seed, 300 + i, 'fork', displays=displays)
+            c = run_case(scn, 'line', count_only=True, mp=True)
+            n = c['n_lines'] or 0
+            rep.count('fork_mp_io_line_points', n)
+            stride = cfg.get('mp_stride', 9)
+            for k in range(1 + (i % stride), int(n * 1.1) + 2, stride):
+                jobs.append(('mpline', scn, k, None, None))
     import random
     prng = random.Random(f'{rep.seed}:C14:double')
     n0 = {}
@@ -356,11 +376,14 @@ def run_job(rep, job):
     import json
     from vlab.dagcommon import scn_summary
     mode, scn, k1, k2, sig = job
-    r = run_case(scn, mode, k1=k1, k2=k2, sig=sig)
+    mp = mode == 'mpline'
+    if mp:
+        mode = 'line'
+    r = run_case(scn, mode, k1=k1, k2=k2, sig=sig, mp=mp)
     if any(k.startswith('hang@') for k, _ in r.get('bad', [])):
         # rule out a merely slow (overloaded) host before calling it a hang: same case, 4x the watchdog
         rep.count('hang_retries')
-        r2 = run_case(scn, mode, k1=k1, k2=k2, sig=sig, watchdog=120)
+        r2 = run_case(scn, mode, k1=k1, k2=k2, sig=sig, watchdog=120, mp=mp)
         if r2.get('delivered') and not any(k.startswith('hang@') for k, _ in r2['bad']):
             rep.inconclusive('run returned only under the extended watchdog: slow host, not judged', {'job': [mode, k1, k2, sig]})
             return
@@ -377,7 +400,7 @@ def run_job(rep, job):
         tag = 'single'
     rep.case([json.dumps(scn['spec'], sort_keys=True), scn['backend'], mode, k1, k2, json.dumps(sig)], True)
     rep.count('interrupts_delivered')
-    rep.count(f'{mode}_{scn["backend"]}_{tag}')
+    rep.count(f'{"mpio" if mp else mode}_{scn["backend"]}_{tag}')
     for s in r['fired']:
         rep.seen('interrupt_sites', f"{s['file']}:{s['func']}")
     seen = set()
@@ -399,14 +422,24 @@ def run_shard(rep):
     done = True
     mine = jobs[rep.shard::rep.nshards]
     # slow (process) jobs first so that the time budget cuts the cheap serial tail, not them
-    proc = [j for j in mine if j[1]['backend'] != 'serial']
-    ser = [j for j in mine if j[1]['backend'] == 'serial']
+    def kind(j):
+        mode, scn, k1, k2, sig = j
+        if mode == 'sigint':
+            return 'sigint'
+        if mode == 'mpline':
+            return 'mpio'
+        if k2 is not None:
+            return 'double'
+        return 'line-' + scn['backend']
+    groups = {}
+    for j in mine:
+        groups.setdefault(kind(j), []).append(j)
     mine = []
-    while proc or ser:          # interleave 1 process job : 6 serial jobs so a time cut hits both kinds evenly
-        if proc:
-            mine.append(proc.pop(0))
-        mine += ser[:6]
-        del ser[:6]
+    while any(groups.values()):      # round-robin over job kinds so that a time cut hits every kind evenly
+        for kd in sorted(groups):
+            take = 5 if kd == 'line-serial' else 1
+            mine += groups[kd][:take]
+            del groups[kd][:take]
     for job in mine:
         if rep.expired():
             rep.count('skipped_for_time')
